@@ -51,9 +51,26 @@ func apply(h *health.Health, o Op) {
 	}
 }
 
+// respPoint: writing the status line and writing the body are scheduling points of a request (under the controlled
+// scheduler another thread may run between them - a handler that computes the code and the body from data it shares
+// with other requests shows there)
+var respPoint = &struct{ x int }{}
+
+type pointWriter struct{ *httptest.ResponseRecorder }
+
+func (w pointWriter) WriteHeader(code int) {
+	defer sched.Point(respPoint, "WriteHeader")()
+	w.ResponseRecorder.WriteHeader(code)
+}
+
+func (w pointWriter) Write(b []byte) (int, error) {
+	defer sched.Point(respPoint, "WriteBody")()
+	return w.ResponseRecorder.Write(b)
+}
+
 func status(h *health.Health) (int, Body) {
 	rec := httptest.NewRecorder()
-	h.ReadyzHandler().ServeHTTP(rec, httptest.NewRequest(http.MethodGet, "/readyz", nil))
+	h.ReadyzHandler().ServeHTTP(pointWriter{rec}, httptest.NewRequest(http.MethodGet, "/readyz", nil))
 	var m map[string]string
 	_ = json.Unmarshal(rec.Body.Bytes(), &m)
 	b := Body{Comps: map[string]string{}}
@@ -160,7 +177,7 @@ func conc(in string, enc *json.Encoder, seed int64, capN int) any {
 					}
 				})
 			}
-			ex := sched.Run(fns, prefix, sched.First, rng, -1, nil)
+			ex := sched.Run(fns, prefix, sched.First, rng, -1, func(e *sched.Exec) { e.Name(respPoint, "resp") })
 			nsched++
 			if !ex.Deadlock && !ex.Hang {
 				// the probe: one more request after every thread has finished (thread 0)
